@@ -42,11 +42,11 @@ Proof.
   - exact (no_banking (early_block c) (interval c) (maxq_ns c) last0 ops).
 Qed.
 
-Theorem C10_idle_immediate : forall c ops now b,
+Theorem C10_idle_immediate : forall c ops now b, 0 <= maxq_ns c ->
   let last := fst (run_c c last0 ops) in
   1 <= b -> early_block c b = false -> last + interval c b <= now ->
   do_check_c c last now b = (now, OPass 0).
-Proof. intros c ops now b last. exact (idle_pass (early_block c) (interval c) (maxq_ns c) last now b). Qed.
+Proof. intros c ops now b Hq last. exact (idle_pass (early_block c) (interval c) (maxq_ns c) last now b Hq). Qed.
 
 (* k admitted requests need at least the sum of their intervals *)
 Theorem C10_total_time : forall c ops,
@@ -67,71 +67,126 @@ Example C10_seq_nonvacuous :
 Proof. vm_compute. repeat split; congruence. Qed.
 
 (* ---- concurrent callers: the pc-machine of Model/ThrottleConc.v (one step = one atomic
-   access of DoCheck), ANY number of callers, ANY schedule of single steps and clock moves ---- *)
+   access of the compare-and-swap loop of DoCheck, yield ids 201 = Load, 202 = CAS), ANY number
+   of callers, ANY schedule of single steps and clock moves.  The clock is read once per call,
+   before the loop: a caller that stalls keeps its stale reading.  The theorems speak about the
+   ghost log of the machine: ELoad / EGrant (successful CAS) / EFail (failed CAS) / EBlock. ---- *)
 
-(* no admitted caller is asked to wait longer than the limit *)
-Theorem C10_conc_wait_bound : forall c bs sched, 0 <= maxq_ns c ->
+(* SPACING, every schedule: the pass times of the admitted requests, in the order of their
+   successful CASes, are separated by at least the later request's interval (the first from
+   the initial stored time), and the stored time is exactly the last assigned pass time *)
+Theorem C10_conc_spacing : forall c bs sched,
+  let s := cexec_c c sched (cinit bs) in
+  spaced (interval c) last0 (grants_of (c_log s)) /\
+  c_last s = last_pass last0 (grants_of (c_log s)).
+Proof. intros c bs sched. exact (conc_spacing (early_block c) (interval c) (maxq_ns c) bs sched). Qed.
+
+(* no admitted caller is asked to wait longer than the limit (no hypothesis on the limit) *)
+Theorem C10_conc_wait_bound : forall c bs sched,
   Forall (fun o => match o with Some (OPass w) => 0 <= w <= maxq_ns c | _ => True end)
          (outcomes (cexec_c c sched (cinit bs))).
 Proof. intros c bs sched. exact (conc_wait_bound (early_block c) (interval c) (maxq_ns c) bs sched). Qed.
 
-(* every pass time is >= the caller's arrival (its own clock reading): nothing is granted in
-   the past, whatever the interleaving *)
+(* every pass time is >= the caller's own clock reading: nothing is granted in the past and
+   idle time is not banked, whatever the interleaving *)
 Theorem C10_conc_no_banking : forall c bs sched,
   Forall (fun g => g_now g <= g_pass g) (grants_of (c_log (cexec_c c sched (cinit bs)))).
 Proof. intros c bs sched. exact (conc_pass_ge_arrival (early_block c) (interval c) (maxq_ns c) bs sched). Qed.
 
-(* a caller rejected at the queueing test saw a stored time that justified it *)
-Theorem C10_conc_reject_seen : forall c bs sched,
+(* every successful CAS, exactly: pass time = max(value it loaded + interval, own clock reading)
+   (so a caller that finds the resource idle passes at once), the wait is within the limit, the
+   batch is within the threshold, and the grant is that caller's observable outcome *)
+Theorem C10_conc_grant_exact : forall c bs sched,
+  let s := cexec_c c sched (cinit bs) in
+  Forall (fun e => match e with
+                   | EGrant tid now b w seen =>
+                       now + w = Z.max (seen + interval c b) now /\ 0 <= w <= maxq_ns c /\
+                       1 <= b /\ early_block c b = false /\
+                       exists th, nth_error (c_threads s) tid = Some th /\
+                                  t_out th = Some (OPass w) /\ t_now th = now /\ t_b th = b
+                   | _ => True end) (c_log s).
+Proof. intros c bs sched. exact (conc_grants_ok (early_block c) (interval c) (maxq_ns c) bs sched). Qed.
+
+(* a rejected caller: its batch exceeds the threshold (or threshold <= 0), or it was rejected on
+   a value `seen` it loaded from the stored time for which seen + interval - now > limit *)
+Theorem C10_conc_reject_only_if_needed : forall c bs sched, 0 <= maxq_ns c ->
+  let s := cexec_c c sched (cinit bs) in
   Forall (fun e => match e with EBlock _ now b seen => seen + interval c b - now > maxq_ns c | _ => True end)
-         (c_log (cexec_c c sched (cinit bs))).
-Proof. intros c bs sched. exact (conc_block_seen (early_block c) (interval c) (maxq_ns c) bs sched). Qed.
-
-(* FULL STATEMENT (false on the code, see the two _refuted theorems):
-     forall c bs sched, spaced (interval c) last0 (grants_of (c_log (cexec_c c sched (cinit bs)))).
-   PROVED PART: spacing (in the order of the callers' CAS/Add, which is then also the order of
-   the pass times) holds on every schedule in which (a) no caller's Add overshoots the limit
-   and is rolled back, and (b) no caller is admitted by an Add whose result lies before its own
-   clock reading.  Missing: schedules with a rollback that does NOT overlap another caller's
-   access are also fine (the add/rollback pair is then a no-op) but are excluded here. *)
-Theorem C10_conc_spacing_partial : forall c bs sched,
-  let s := cexec_c c sched (cinit bs) in
-  rollback_free (c_log s) -> stale_free (c_log s) ->
-  spaced (interval c) last0 (grants_of (c_log s)) /\
-  c_last s = last_pass last0 (grants_of (c_log s)).
-Proof. intros c bs sched. exact (conc_spacing_partial (early_block c) (interval c) (maxq_ns c) bs sched). Qed.
-
-(* D8: threshold 1/s, max queueing 0.5 s.  A's Add overshoots and is parked before its rollback
-   while the clock moves on; B is admitted on the inflated value (pass +3.0 s); A rolls back; C
-   obtains +3.0 s as well.  No stale add is involved. Callers 0=R0 1=A 2=D 3=B 4=C. *)
-Definition d8_t0 : Z := 1700000000000000000.
-Definition d8_sched : list ev :=
-  [SetClock d8_t0; Run 0; Run 0; Run 0;
-   SetClock (d8_t0 + 500000000); Run 1; Run 1; Run 1;
-   Run 2; Run 2; Run 2; Run 2;
-   Run 1;
-   SetClock (d8_t0 + 2500000000); Run 3; Run 3; Run 3; Run 3;
-   Run 1;
-   Run 4; Run 4; Run 4; Run 4]%nat.
-
-Theorem C10_conc_spacing_refuted : exists c bs sched,
-  let s := cexec_c c sched (cinit bs) in
-  0 <= maxq_ns c /\ interval c 1 = 1000000000 /\ stale_free (c_log s) /\
-  map g_pass (grants_of (c_log s)) = [d8_t0; d8_t0 + 1000000000; d8_t0 + 3000000000; d8_t0 + 3000000000] /\
-  ~ spaced (interval c) last0 (grants_of (c_log s)).
+         (c_log s) /\
+  forall tid th, nth_error (c_threads s) tid = Some th -> t_out th = Some OBlock ->
+    1 <= t_b th /\
+    (early_block c (t_b th) = true \/
+     exists seen, In (EBlock tid (t_now th) (t_b th) seen) (c_log s) /\
+                  seen + interval c (t_b th) - t_now th > maxq_ns c).
 Proof.
-  exists (mk_cfg 1%float 500 0), [1; 1; 1; 1; 1], d8_sched. cbv zeta.
-  split; [vm_compute; congruence|]. split; [vm_compute; reflexivity|].
-  split; [apply (proj1 (stale_freeb_spec (fun _ => true) (fun x => x) _)); vm_compute; reflexivity|].
-  split; [vm_compute; reflexivity|].
-  intro H. apply (proj2 (spacedb_spec (fun _ => true) _ 0 _ _)) in H. vm_compute in H. discriminate H.
+  intros c bs sched Hq s. split.
+  - exact (conc_block_seen (early_block c) (interval c) (maxq_ns c) bs sched Hq).
+  - intros tid th. exact (conc_block_only_if (early_block c) (interval c) (maxq_ns c) bs sched tid th Hq).
 Qed.
 
-(* second race, found while proving the partial theorem: B reads the clock (+0.0) and stalls;
-   A (+3.0) loads the same stored value; B wins the CAS (stored +0.0); A loses it, its estimated
-   wait is +1.0 - +3.0 < 0, so it Adds (stored +1.0) and passes at +3.0 with wait 0; C (+3.0)
-   finds stored + 1 s <= now, CASes and passes at +3.0 too.  No rollback is involved.
-   Callers 0=B 1=A 2=C. *)
+(* LOCK-FREEDOM / termination.  (1) every failed CAS of a caller comes after that caller's Load
+   with, in between, a successful CAS of ANOTHER caller (fails_justified: the log before the
+   EFail splits as l0 ++ ELoad tid seen :: since, no event of tid in `since`, and `since`
+   contains a grant to another caller).  (2) Variant: the number of failed CASes of a caller
+   never exceeds the number of successful CASes of the other callers, which is at most
+   (number of callers - 1) since every caller is granted at most once: a caller takes at most
+   1 + 2 * (number of callers) steps, and some caller completes whenever a CAS fails. *)
+Theorem C10_conc_lock_free : forall c bs sched,
+  let log := c_log (cexec_c c sched (cinit bs)) in
+  fails_justified [] log /\
+  forall tid, (tid < length bs)%nat ->
+    (fails tid log <= others tid log)%nat /\ (others tid log <= length bs - 1)%nat.
+Proof.
+  intros c bs sched log. split.
+  - exact (conc_fails_justified (early_block c) (interval c) (maxq_ns c) bs sched).
+  - intros tid. exact (conc_fails_bound (early_block c) (interval c) (maxq_ns c) bs sched tid).
+Qed.
+
+Definition d8_t0 : Z := 1700000000000000000.
+
+(* non-vacuity: threshold 1/s, limit 2 s, three callers really interleaved: all three load the
+   same stored value; caller 1 wins the CAS, callers 0 and 2 fail and retry (2 fails twice);
+   grants 1 s apart; then with a stale clock: caller 3 read the clock before the others were
+   scheduled and is rejected on the value it loads later *)
+Example C10_conc_nonvacuous :
+  let c := mk_cfg 1%float 2000 0 in
+  let sched := [SetClock d8_t0; Run 3; Run 0; Run 1; Run 2; Run 0; Run 1; Run 2; Run 1; Run 0; Run 2;
+                Run 0; Run 2; Run 0; Run 2; Run 2; Run 2; Run 3]%nat in
+  let s := cexec_c c sched (cinit [1; 1; 1; 1]) in
+  0 <= maxq_ns c /\
+  map g_pass (grants_of (c_log s)) = [d8_t0; d8_t0 + 1000000000; d8_t0 + 2000000000] /\
+  gtids (c_log s) = [1; 0; 2]%nat /\
+  (fails 0 (c_log s), fails 2 (c_log s), others 2 (c_log s)) = (1, 2, 2)%nat /\
+  outcomes s = [Some (OPass 1000000000); Some (OPass 0); Some (OPass 2000000000); Some OBlock] /\
+  In (EBlock 3 d8_t0 1 (d8_t0 + 2000000000)) (c_log s).
+Proof. vm_compute. repeat split; try congruence. auto 20. Qed.
+
+(* regression witnesses: the two schedules that broke the former load / CAS-if-idle / Add /
+   rollback protocol (known findings C10-F1 and C10-F2, repaired by /repo 65f15f6), adapted to
+   the steps of the CAS loop.
+   D8 (callers 0=R0 1=A 2=D 3=B 4=C, threshold 1/s, limit 0.5 s): A (+0.5) is parked before
+   its CAS; D (+0.5) is scheduled for +1.0; A's CAS fails; the clock moves to +2.5; B passes at
+   +2.5; A reloads and is rejected (+3.5 is 3 s after its clock reading); C (+3.2) is scheduled
+   for +3.5.  Formerly B and C both obtained +3.0. *)
+Definition d8_sched : list ev :=
+  [SetClock d8_t0; Run 0; Run 0; Run 0;
+   SetClock (d8_t0 + 500000000); Run 1; Run 1;
+   Run 2; Run 2; Run 2;
+   Run 1;
+   SetClock (d8_t0 + 2500000000); Run 3; Run 3; Run 3;
+   Run 1;
+   SetClock (d8_t0 + 3200000000); Run 4; Run 4; Run 4]%nat.
+
+Example C10_conc_d8_regression :
+  let s := cexec_c (mk_cfg 1%float 500 0) d8_sched (cinit [1; 1; 1; 1; 1]) in
+  map g_pass (grants_of (c_log s)) = [d8_t0; d8_t0 + 1000000000; d8_t0 + 2500000000; d8_t0 + 3500000000] /\
+  outcomes s = [Some (OPass 0); Some OBlock; Some (OPass 500000000); Some (OPass 0); Some (OPass 300000000)].
+Proof. vm_compute. split; reflexivity. Qed.
+
+(* lost CAS with an older clock (callers 0=B 1=A 2=C): B reads the clock (+0.0) and stalls; A
+   (+3.0) loads the initial value; B loads it too and wins the CAS (stored +0.0); A's CAS fails,
+   it reloads +0.0 and passes at +3.0 with the stored time now +3.0; C (+3.0) would have to wait
+   1 s and is rejected.  Formerly A and C both passed at +3.0. *)
 Definition stale_sched : list ev :=
   [SetClock d8_t0; Run 0;
    SetClock (d8_t0 + 3000000000); Run 1; Run 1;
@@ -139,33 +194,11 @@ Definition stale_sched : list ev :=
    Run 1; Run 1; Run 1;
    Run 2; Run 2; Run 2]%nat.
 
-Theorem C10_conc_spacing_refuted_stale : exists c bs sched,
-  let s := cexec_c c sched (cinit bs) in
-  0 <= maxq_ns c /\ interval c 1 = 1000000000 /\ rollback_free (c_log s) /\
-  map g_pass (grants_of (c_log s)) = [d8_t0; d8_t0 + 3000000000; d8_t0 + 3000000000] /\
-  ~ spaced (interval c) last0 (grants_of (c_log s)).
-Proof.
-  exists (mk_cfg 1%float 500 0), [1; 1; 1], stale_sched. cbv zeta.
-  split; [vm_compute; congruence|]. split; [vm_compute; reflexivity|].
-  split; [apply (proj1 (rollback_freeb_spec _)); vm_compute; reflexivity|].
-  split; [vm_compute; reflexivity|].
-  intro H. apply (proj2 (spacedb_spec (fun _ => true) _ 0 _ _)) in H. vm_compute in H. discriminate H.
-Qed.
-
-(* non-vacuity of the partial theorem: three callers really interleaved (A and B both inside
-   DoCheck, both past their queueing test before either adds), no rollback, no stale add, three
-   grants 1 s apart *)
-Example C10_conc_nonvacuous :
-  let c := mk_cfg 1%float 2000 0 in
-  let sched := [SetClock d8_t0; Run 0; Run 0; Run 0; Run 1; Run 2; Run 1; Run 2; Run 1; Run 2; Run 2; Run 1]%nat in
-  let s := cexec_c c sched (cinit [1; 1; 1]) in
-  rollback_free (c_log s) /\ stale_free (c_log s) /\
-  map g_pass (grants_of (c_log s)) = [d8_t0; d8_t0 + 1000000000; d8_t0 + 2000000000] /\
-  outcomes s = [Some (OPass 0); Some (OPass 2000000000); Some (OPass 1000000000)].
-Proof.
-  cbv zeta. split; [apply (proj1 (rollback_freeb_spec _)); vm_compute; reflexivity|].
-  split; [apply (proj1 (stale_freeb_spec (fun _ => true) (fun x => x) _)); vm_compute; reflexivity|]. vm_compute. split; reflexivity.
-Qed.
+Example C10_conc_lost_cas_regression :
+  let s := cexec_c (mk_cfg 1%float 500 0) stale_sched (cinit [1; 1; 1]) in
+  map g_pass (grants_of (c_log s)) = [d8_t0; d8_t0 + 3000000000] /\ c_last s = d8_t0 + 3000000000 /\
+  outcomes s = [Some (OPass 0); Some (OPass 0); Some OBlock].
+Proof. vm_compute. repeat split; reflexivity. Qed.
 
 Print Assumptions C10_spacing.
 Print Assumptions C10_wait_bound.
@@ -174,9 +207,9 @@ Print Assumptions C10_no_banking.
 Print Assumptions C10_idle_immediate.
 Print Assumptions C10_total_time.
 Print Assumptions C10_zero_batch_inert.
+Print Assumptions C10_conc_spacing.
 Print Assumptions C10_conc_wait_bound.
 Print Assumptions C10_conc_no_banking.
-Print Assumptions C10_conc_reject_seen.
-Print Assumptions C10_conc_spacing_partial.
-Print Assumptions C10_conc_spacing_refuted.
-Print Assumptions C10_conc_spacing_refuted_stale.
+Print Assumptions C10_conc_grant_exact.
+Print Assumptions C10_conc_reject_only_if_needed.
+Print Assumptions C10_conc_lock_free.
